@@ -38,8 +38,11 @@ pub fn gen_case(seed: u64, idx: usize, kinds: &[SectionKind], mode: usize) -> Ca
     let gp = GenParams { flavor: gen::Flavor::Git, sections: vec![], max_hunks: rng.range(1, 3), pivot: *rng.pick(&[1usize, 2, 3]), max_run: 6, with_commit_preamble: false, multibyte: rng.chance(1, 4), no_newline_marker: rng.chance(1, 2), similar_pairs: rng.chance(1, 2) };
     let mut sections = Vec::new();
     let mut tok = 0;
+    // one time in three all sections are about the same path (`git log -p -- path`, a file added in
+    // one commit and changed in the next, ...)
+    let shared: Option<String> = if rng.chance(1, 3) { Some(format!("{}shared_{}.{}", rng.pick(&["", "src/", "a/b/"]), rng.below(100), rng.pick(&["rs", "png", "txt", "sh"]))) } else { None };
     for (i, k) in kinds.iter().enumerate() {
-        let s = gen::generate_section(&mut rng, &gp, *k, i, tok);
+        let s = gen::generate_section_named(&mut rng, &gp, *k, i, tok, shared.clone());
         tok += s.iter().filter(|l| l.token.is_some()).count();
         sections.push(s);
     }
